@@ -50,7 +50,7 @@ theorem rule_iff (s : SchemaD) (fx : Fixes) (d : Doc) (r : Rule) (hr : r ∈ Pro
   · exact rule_unique_operation_names_iff s fx d
 
 /-- **verdict_iff** for the conjunction of the rules proved -/
-theorem verdict_iff_proved (s : SchemaD) (fx : Fixes) (d : Doc) :
+theorem verdict_iff_partial (s : SchemaD) (fx : Fixes) (d : Doc) :
     (∀ r ∈ Proved, Silent s fx r d) ↔ (∀ r ∈ Proved, SpecOf r s d) :=
   forall_congr' fun r => forall_congr' fun hr => rule_iff s fx d r hr
 
@@ -214,40 +214,61 @@ theorem spec_perm_definitions (s : SchemaD) {d d' : Doc} (h : d.defs.Perm d'.def
   · simp only [SpecOf, Spec.uniqueOperationNames, Spec.opNames]
     exact (h.filterMap _).nodup_iff
 
-/-! ### transported to the rule visitors -/
+/-! ### transported to the rule visitors
+
+  The `_partial` theorems below are the invariance part of C06 for the rules in `Proved`. The full statements
+  (all 26 rules, i.e. the verdict of the whole chain) are kept visible here; what is missing is a `rule_*_iff`
+  for the rules named in `Spec.Unproved` - for those the invariance rests on the correspondence and on the
+  metamorphic oracle of harness/corr/C06.py. For the code before the fix commits the full statements are FALSE
+  (`perm_selections_refuted_unfixed`, `perm_definitions_refuted_unfixed` in C06_witness.lean). -/
+
+/-- full statement: reordering definitions never changes the verdict of the chain -/
+def FullStatement_perm_definitions : Prop :=
+  ∀ (s : SchemaD) (d d' : Doc), d.defs.Perm d'.defs → verdict { schema := s } d = verdict { schema := s } d'
+
+/-- full statement: reordering selections / arguments and renaming fragments injectively never changes the
+    verdict of the chain (aliases and variables: not yet covered by `Tr`) -/
+def FullStatement_tr_invariance : Prop :=
+  ∀ (T : Tr), (∀ a b, T.frag a = T.frag b → a = b) → ∀ (s : SchemaD) (d : Doc),
+    verdict { schema := s } (T.doc d) = verdict { schema := s } d
+
+/-- full statement of the equivalence with the specification: needs a specification predicate and a
+    `rule_*_iff` for every rule of `Rule.all` -/
+def FullStatement_verdict_iff (SpecAll : Rule → SchemaD → Doc → Prop) : Prop :=
+  ∀ (s : SchemaD) (d : Doc), verdict { schema := s } d = some true ↔ ∀ r ∈ Rule.all, SpecAll r s d
 
 /-- **perm_definitions**: reordering the definitions of the document does not change the verdict of any proved rule -/
-theorem perm_definitions (s : SchemaD) (fx : Fixes) {d d' : Doc} (h : d.defs.Perm d'.defs) (r : Rule) (hr : r ∈ Proved) :
+theorem perm_definitions_partial (s : SchemaD) (fx : Fixes) {d d' : Doc} (h : d.defs.Perm d'.defs) (r : Rule) (hr : r ∈ Proved) :
     Silent s fx r d ↔ Silent s fx r d' := by
   rw [rule_iff s fx d r hr, rule_iff s fx d' r hr]; exact spec_perm_definitions s h r hr
 
 /-- general form: any `Tr` with an injective fragment renaming -/
-theorem tr_invariance (T : Tr) (hinj : ∀ a b, T.frag a = T.frag b → a = b) (s : SchemaD) (fx : Fixes) (d : Doc)
+theorem tr_invariance_partial (T : Tr) (hinj : ∀ a b, T.frag a = T.frag b → a = b) (s : SchemaD) (fx : Fixes) (d : Doc)
     (r : Rule) (hr : r ∈ Proved) : Silent s fx r (T.doc d) ↔ Silent s fx r d := by
   rw [rule_iff s fx _ r hr, rule_iff s fx d r hr]; exact spec_tr T hinj s d r hr
 
 /-- **perm_selections**: `π` re-orders every selection list of the document (at every depth) -/
-theorem perm_selections (π : List Sel → List Sel) (hπ : ∀ l, (π l).Perm l) (s : SchemaD) (fx : Fixes) (d : Doc)
+theorem perm_selections_partial (π : List Sel → List Sel) (hπ : ∀ l, (π l).Perm l) (s : SchemaD) (fx : Fixes) (d : Doc)
     (r : Rule) (hr : r ∈ Proved) :
     Silent s fx r ((Tr.mk π id id hπ (fun _ => List.Perm.refl _)).doc d) ↔ Silent s fx r d :=
-  tr_invariance _ (fun _ _ e => e) s fx d r hr
+  tr_invariance_partial _ (fun _ _ e => e) s fx d r hr
 
 /-- **perm_arguments**: `π` re-orders the arguments of every field and every directive -/
-theorem perm_arguments (π : List Arg → List Arg) (hπ : ∀ l, (π l).Perm l) (s : SchemaD) (fx : Fixes) (d : Doc)
+theorem perm_arguments_partial (π : List Arg → List Arg) (hπ : ∀ l, (π l).Perm l) (s : SchemaD) (fx : Fixes) (d : Doc)
     (r : Rule) (hr : r ∈ Proved) :
     Silent s fx r ((Tr.mk id π id (fun _ => List.Perm.refl _) hπ).doc d) ↔ Silent s fx r d :=
-  tr_invariance _ (fun _ _ e => e) s fx d r hr
+  tr_invariance_partial _ (fun _ _ e => e) s fx d r hr
 
 /-- **alpha_fragments**: `ρ` renames fragments injectively (definitions and spreads consistently) -/
-theorem alpha_fragments (ρ : String → String) (hρ : ∀ a b, ρ a = ρ b → a = b) (s : SchemaD) (fx : Fixes) (d : Doc)
+theorem alpha_fragments_partial (ρ : String → String) (hρ : ∀ a b, ρ a = ρ b → a = b) (s : SchemaD) (fx : Fixes) (d : Doc)
     (r : Rule) (hr : r ∈ Proved) :
     Silent s fx r ((Tr.mk id id ρ (fun _ => List.Perm.refl _) (fun _ => List.Perm.refl _)).doc d) ↔ Silent s fx r d :=
-  tr_invariance _ hρ s fx d r hr
+  tr_invariance_partial _ hρ s fx d r hr
 
 /-- non-vacuity: a genuine reordering of selections is an instance (`List.reverse`) -/
 example (s : SchemaD) (fx : Fixes) (d : Doc) (r : Rule) (hr : r ∈ Proved) :
     Silent s fx r ((Tr.mk List.reverse id id (fun l => l.reverse_perm) (fun _ => List.Perm.refl _)).doc d) ↔
-      Silent s fx r d := perm_selections List.reverse (fun l => l.reverse_perm) s fx d r hr
+      Silent s fx r d := perm_selections_partial List.reverse (fun l => l.reverse_perm) s fx d r hr
 
 /-- every rule of the chain is either proved or listed in `Spec.Unproved` -/
 theorem proved_or_listed : ∀ r ∈ Rule.all, r ∈ Proved ∨ r.name ∈ Spec.Unproved := by decide
